@@ -53,9 +53,9 @@ func (c11) Gen(seed uint64, run int, tier string) *Plan {
 		case x < 60:
 			p.Actions = append(p.Actions, Action{Kind: "task", A: r.Intn(4), B: d, D: r.Intn(50)})
 		case x < 68:
-			p.Actions = append(p.Actions, Action{Kind: "ladd", A: r.Intn(4), B: r.Intn(3), C: r.Intn(2)})
+			p.Actions = append(p.Actions, Action{Kind: "ladd", A: r.Intn(4), B: r.Intn(3), C: r.Intn(3), D: []int{0, 0, 1}[r.Intn(3)]})
 		case x < 74:
-			p.Actions = append(p.Actions, Action{Kind: "lremove", A: r.Intn(4), B: r.Intn(3), C: r.Intn(2)})
+			p.Actions = append(p.Actions, Action{Kind: "lremove", A: r.Intn(4), B: r.Intn(3), C: r.Intn(3)})
 		case x < 80:
 			p.Actions = append(p.Actions, Action{Kind: "register"})
 		case x < 92:
@@ -66,7 +66,13 @@ func (c11) Gen(seed uint64, run int, tier string) *Plan {
 				p.Actions = append(p.Actions, Action{Kind: "checkin", B: d})
 			}
 		default:
-			if p.Policy.Name != "atomic" && r.Intn(3) == 0 {
+			if r.Intn(6) == 0 {
+				// a name whose first start failed, that was started again and then removed: nothing of
+				// it may be announced to an operator who connects afterwards
+				b := r.Intn(3)
+				p.Actions = append(p.Actions, Action{Kind: "ladd", A: 0, B: b, C: 2, D: 1}, Action{Kind: "ladd", A: 0, B: b, C: 2},
+					Action{Kind: "lremove", A: 0, B: b, C: 2}, Action{Kind: "login", A: o})
+			} else if p.Policy.Name != "atomic" && r.Intn(3) == 0 {
 				// a listener whose announcement sits early in the retained log is removed while an
 				// operator is being replayed that log
 				b, c := r.Intn(3), r.Intn(2)
@@ -109,8 +115,11 @@ type c11State struct {
 }
 
 func (st *c11State) lname(a Action) (string, string) {
-	if a.C%2 == 0 {
+	switch a.C % 3 {
+	case 0:
 		return fmt.Sprintf("smb-%d", a.B%3), "Smb"
+	case 2:
+		return fmt.Sprintf("web-%d", a.B%3), "Http"
 	}
 	return fmt.Sprintf("ext-%d", a.B%3), "External"
 }
@@ -273,9 +282,21 @@ func (st *c11State) inject(a Action) {
 		if c := st.op(a.A); c != nil && c.healthy && c.authed {
 			name, proto := st.lname(a)
 			info := map[string]any{"Name": name, "Protocol": proto}
-			if proto == "Smb" {
+			switch proto {
+			case "Smb":
 				info["PipeName"] = "pipe_" + name
-			} else {
+			case "Http":
+				port := fmt.Sprint(9100 + a.B%3)
+				if a.D == 1 {
+					// this start fails: the port cannot be bound
+					w.Sim.ForceBindFail(port)
+					res.Probe("failed-listener-starts")
+				}
+				for k, v := range map[string]any{"HostBind": "10.0.0.5", "Hosts": "10.0.0.5", "Headers": "", "Uris": "", "HostRotation": "round-robin",
+					"PortBind": port, "PortConn": "", "HostHeader": "", "UserAgent": "", "Secure": "false"} {
+					info[k] = v
+				}
+			default:
 				info["Endpoint"] = "ep-" + name
 			}
 			c.o.SendJSON(world.MakePkg(world.EvListener, world.ListenerAdd, c.o.Name, info))
